@@ -62,7 +62,8 @@ PROPS = {
     "C15": {
         "verus": [("manager", [SM + "get_user_state", SM + "compare_db_and_transaction_records", SM + "commit_transaction", SM + "is_transaction_active",
                                SM + "tic_toc", SM + "increment_metric", "DbRecord.transaction_priority", SM + "get_user_state_versions",
-                               SM + "get_from_cache_only", SM + "get", SM + "batch_get"])],
+                               SM + "get_from_cache_only", SM + "get", SM + "batch_get", "lemma_merge"])],
+        "kani": ["c15"],
         "search": True,
         "always_search": True,
         "scope": "partial: inside a transaction a single user-state query returns the pending record exactly when it must win against the database answer for that flag "
@@ -70,7 +71,8 @@ PROPS = {
                  "the bulk versions query answers per user the (version, value) of the state that rule selects (HashMap loop through R-MAPITER, any iteration order); "
                  "single and batched record gets return the pending record of a key whenever the open transaction has one (a cache hit only for keys without a pending record, "
                  "the database only for keys with neither); commit hands the database exactly the drained log, only if its last record is the epoch record, and reports its size. "
-                 "get_user_data and begin/rollback (state behind &self) are not decided.",
+                 "lemma_merge: that rule applied to the answers over database and pending data IS the same query over the merged data (what the query returns after commit) for well-formed data; "
+                 "the pending-side helper find_appropriate_item is checked BOUNDED (Kani, 3 states). get_user_data, the in-memory database and begin/rollback (state behind &self) are not decided.",
         "trusted": ["StorageManager is a model struct (same field names; Arc<Db> -> opaque handle with the Database methods as stubs); Transaction / TimedCache / Database methods external",
                     "Transaction::commit_transaction returns the log sorted by transaction_priority (closure/DashMap code outside the verifier)",
                     "that 'pending wins' as specified equals the post-commit read relies on the well-formedness of the data stated in the property (versions increase with epochs)"],
